@@ -55,8 +55,8 @@ func defArg(t smartcontract.ParamType, v *env) any {
 	}
 }
 
-var accX = util.Uint160{0xaa, 1}    // never blocked
-var accY = util.Uint160{0xbb, 2}    // blocked in setup, holds GAS
+var accX = util.Uint160{0xaa, 1} // never blocked
+var accY = util.Uint160{0xbb, 2} // blocked in setup, holds GAS
 var farFuture = uint64(400 * 24 * 3600 * 1000)
 
 // setupNatives puts the chain into a state where every state-changing native method can have its effect.
@@ -73,8 +73,12 @@ func (v *env) setupNatives() {
 	}
 	neo.Invoke(t, true, "transfer", v.comHash, v.accA.ScriptHash(), 1000, nil)
 	neo.Invoke(t, true, "transfer", v.comHash, v.P1.Hash, 1000, nil)
+	neo.Invoke(t, true, "transfer", v.comHash, v.P2.Hash, 1000, nil)
 	// candidate A registered, committee votes for nobody yet
 	neo.WithSigners(v.accA).Invoke(t, true, "registerCandidate", v.keyA.PublicKey().Bytes())
+	// contract P2 is a voter (it witnesses the vote as the calling contract)
+	e.InvokeScriptCheckHALT(t, chainScript([]hop{{v.P2.Hash, "call", 15}}, e.NativeHash(t, nativenames.Neo), "vote", 15,
+		[]any{v.P2.Hash, v.keyA.PublicKey().Bytes()}), []neotest.Signer{v.com})
 	// blocked account Y, whitelisted T.nop
 	pol.Invoke(t, true, "blockAccount", accY)
 	pol.Invoke(t, nil, "setWhitelistFeeContract", v.T.Hash, "nop", 0, 1)
@@ -115,38 +119,38 @@ func (v *env) natOps() []natOp {
 		return blk
 	}
 	builders := map[string][]any{
-		"ContractManagement.deploy/2":                   {nefBytes(newc.NEF), manifestJSON(newc.Manifest)},
-		"ContractManagement.deploy/3":                   {nefBytes(withDeploy.NEF), manifestJSON(withDeploy.Manifest), nil},
-		"ContractManagement.update/2":                   {nefBytes(v.P1.NEF), manifestJSON(&p1m)},
-		"ContractManagement.update/3":                   {nil, manifestJSON(&p1m), nil},
-		"ContractManagement.destroy/0":                  {},
-		"ContractManagement.setMinimumDeploymentFee/1":  {7_0000_0000},
-		"NeoToken.registerCandidate/1":                  {v.keyB.PublicKey().Bytes()},
-		"NeoToken.unregisterCandidate/1":                {v.keyA.PublicKey().Bytes()},
-		"NeoToken.vote/2":                               {com, v.keyA.PublicKey().Bytes()},
-		"NeoToken.setGasPerBlock/1":                     {3_0000_0000},
-		"NeoToken.setRegisterPrice/1":                   {900_0000_0000},
-		"NeoToken.transfer/4":                           {com, accX, 10, nil},
-		"GasToken.transfer/4":                           {com, accX, 10, nil},
-		"PolicyContract.blockAccount/1":                 {accX},
-		"PolicyContract.unblockAccount/1":               {accY},
-		"PolicyContract.recoverFund/2":                  {accY, nh(nativenames.Gas)},
-		"PolicyContract.setWhitelistFeeContract/4":      {v.U.Hash, "ping", 0, 5},
-		"PolicyContract.removeWhitelistFeeContract/3":   {v.T.Hash, "nop", 0},
-		"PolicyContract.setAttributeFee/2":              {int(transaction.HighPriority), 12345},
-		"PolicyContract.setExecFeeFactor/1":             {50},
-		"PolicyContract.setFeePerByte/1":                {1234},
-		"PolicyContract.setMaxTraceableBlocks/1":        {1000},
+		"ContractManagement.deploy/2":                     {nefBytes(newc.NEF), manifestJSON(newc.Manifest)},
+		"ContractManagement.deploy/3":                     {nefBytes(withDeploy.NEF), manifestJSON(withDeploy.Manifest), nil},
+		"ContractManagement.update/2":                     {nefBytes(v.P1.NEF), manifestJSON(&p1m)},
+		"ContractManagement.update/3":                     {nil, manifestJSON(&p1m), nil},
+		"ContractManagement.destroy/0":                    {},
+		"ContractManagement.setMinimumDeploymentFee/1":    {7_0000_0000},
+		"NeoToken.registerCandidate/1":                    {v.keyB.PublicKey().Bytes()},
+		"NeoToken.unregisterCandidate/1":                  {v.keyA.PublicKey().Bytes()},
+		"NeoToken.vote/2":                                 {com, v.keyA.PublicKey().Bytes()},
+		"NeoToken.setGasPerBlock/1":                       {3_0000_0000},
+		"NeoToken.setRegisterPrice/1":                     {900_0000_0000},
+		"NeoToken.transfer/4":                             {com, accX, 10, nil},
+		"GasToken.transfer/4":                             {com, accX, 10, nil},
+		"PolicyContract.blockAccount/1":                   {accX},
+		"PolicyContract.unblockAccount/1":                 {accY},
+		"PolicyContract.recoverFund/2":                    {accY, nh(nativenames.Gas)},
+		"PolicyContract.setWhitelistFeeContract/4":        {v.U.Hash, "ping", 0, 5},
+		"PolicyContract.removeWhitelistFeeContract/3":     {v.T.Hash, "nop", 0},
+		"PolicyContract.setAttributeFee/2":                {int(transaction.HighPriority), 12345},
+		"PolicyContract.setExecFeeFactor/1":               {50},
+		"PolicyContract.setFeePerByte/1":                  {1234},
+		"PolicyContract.setMaxTraceableBlocks/1":          {900},
 		"PolicyContract.setMaxValidUntilBlockIncrement/1": {50},
-		"PolicyContract.setMillisecondsPerBlock/1":      {2000},
-		"PolicyContract.setStoragePrice/1":              {54321},
-		"RoleManagement.designateAsRole/2":              {int(noderoles.Oracle), []any{v.keyA.PublicKey().Bytes()}},
-		"OracleContract.request/5":                      {"https://y", nil, "oracleCb", nil, 1_0000_0000},
-		"OracleContract.finish/0":                       {},
-		"OracleContract.setPrice/1":                     {7777_7777},
-		"Notary.lockDepositUntil/2":                     {com, int64(h + 50)},
-		"Notary.withdraw/2":                             {com, accX},
-		"Notary.setMaxNotValidBeforeDelta/1":            {30},
+		"PolicyContract.setMillisecondsPerBlock/1":        {2000},
+		"PolicyContract.setStoragePrice/1":                {54321},
+		"RoleManagement.designateAsRole/2":                {int(noderoles.Oracle), []any{v.keyA.PublicKey().Bytes()}},
+		"OracleContract.request/5":                        {"https://y", nil, "oracleCb", nil, 1_0000_0000},
+		"OracleContract.finish/0":                         {},
+		"OracleContract.setPrice/1":                       {7777_7777},
+		"Notary.lockDepositUntil/2":                       {com, int64(h + 50)},
+		"Notary.withdraw/2":                               {com, accX},
+		"Notary.setMaxNotValidBeforeDelta/1":              {30},
 	}
 	for _, n := range v.bc.GetNatives() {
 		for _, m := range n.Manifest.ABI.Methods {
@@ -175,6 +179,8 @@ func (v *env) natOps() []natOp {
 		natOp{Name: "NeoToken.transfer/4#toContract", Hash: neoH, Method: "transfer", Args: []any{com, v.P2.Hash, 10, nil}, Tx: txAll},
 		natOp{Name: "GasToken.transfer/4#notaryDeposit", Hash: gasH, Method: "transfer", Args: []any{com, nh(nativenames.Notary), 10_0000_0000, []any{a, int64(h + 100)}}, Tx: txAll},
 		natOp{Name: "GasToken.transfer/4#neoRegister", Hash: gasH, Method: "transfer", Args: []any{b, neoH, 1000_0000_0000, v.keyB.PublicKey().Bytes()}, Tx: v.mkTx(b, com)},
+		natOp{Name: "NeoToken.vote/2#contractVoter", Hash: neoH, Method: "vote", Args: []any{v.P1.Hash, v.keyA.PublicKey().Bytes()}, Tx: txAll},
+		natOp{Name: "PolicyContract.blockAccount/1#contractVoter", Hash: nh(nativenames.Policy), Method: "blockAccount", Args: []any{v.P2.Hash}, Tx: txAll},
 		natOp{Name: "NeoToken.transfer/4#fromContract", Hash: neoH, Method: "transfer", Args: []any{v.P1.Hash, accX, 10, nil}, Tx: txAll},
 	)
 	return ops
